@@ -301,6 +301,14 @@ def generate() -> str:
 EXTRA_SECTIONS: list = []
 
 
+def _buildtop_section():
+    import extract_buildtop
+    return extract_buildtop.section()
+
+
+EXTRA_SECTIONS.append(_buildtop_section)
+
+
 def main(write: bool = True) -> int:
     try:
         txt = generate()
